@@ -29,7 +29,7 @@ class Features:
         self.namespaces = True
         self.recursion = True
         self.defaults = True
-        self.bytes_defaults = False  # F-DEFAULT-BYTES territory
+        self.bytes_defaults = True  # (was excluded while F-DEFAULT-BYTES was open)
         self.dict_prims = 0.08  # probability of {"type": "int"} spelling
         self.dict_null = False  # {"type":"null"} spelling (F-NULL-DICT-FORM)
         self.attrs = False  # doc / aliases / order / custom attributes
@@ -52,7 +52,7 @@ class Features:
         self.ns_pool = None  # override of NAMESPACES
         self.tuples_in_unions = False  # with tuple notation disabled a tuple is an ordinary sequence everywhere
         self.int_float_defaults = False  # JSON integer literals as defaults of float/double fields
-        self.ambiguous_union_defaults = False  # known finding F-UNION-DEFAULT-BRANCH (C01): excluded by construction
+        self.ambiguous_union_defaults = True  # (was excluded by construction while F-UNION-DEFAULT-BRANCH was open)
         self.__dict__.update(kw)
 
 
